@@ -16,6 +16,10 @@ Definition out_eqb (a b : out) : bool :=
 Inductive case :=
 | CHist (cl : Z) (hdr : bool) (nilbody : bool) (cerr : option err) (steps : list rstep)
         (ops : list op) (outs : list out) (closes : nat)
+(* the same, the body being a value of the standard library (the http.NoBody sentinel, a NopCloser over a bytes or
+   strings reader) that stands for the script steps: its Close returns nil and the Close calls it receives cannot be
+   counted, so the count is not an observable of these cases (the count the calls themselves demand is used) *)
+| CHistU (cl : Z) (hdr : bool) (nilbody : bool) (steps : list rstep) (ops : list op) (outs : list out)
 (* two requests with their own scripted streams, the calls interleaved (each tagged with its request: false the
    first, true the second), the outputs in the order of the calls, the Close calls each stream received *)
 | CPair (cA : cfg) (stepsA : list rstep) (cB : cfg) (stepsB : list rstep)
@@ -28,6 +32,11 @@ Definition check_case (x : case) : N :=
     let '(mouts, s') := run c ops (init c steps) in
     verdict (list_eqb out_eqb mouts outs && Nat.eqb (s_closes s') closes)
             (no_panic outs && history_strict_ok c steps ops outs closes)
+  | CHistU cl hdr nilbody steps ops outs =>
+    let c := mkCfg cl hdr nilbody None in
+    let '(mouts, _) := run c ops (init c steps) in
+    verdict (list_eqb out_eqb mouts outs)
+            (no_panic outs && history_strict_ok c steps ops outs (closes_expected c false false 0 ops))
   | CPair cA stepsA cB stepsB ops outs closesA closesB =>
     let '(mouts, (sA', sB')) := run2 cA cB ops (init cA stepsA) (init cB stepsB) in
     verdict (list_eqb out_eqb mouts outs && Nat.eqb (s_closes sA') closesA && Nat.eqb (s_closes sB') closesB)
